@@ -200,3 +200,15 @@ Definition c10_dwhere (x : ccase) : list (nat * list (nat * list (N * Z))) :=
                             [(0, f 0 1); (2, f 2 3); (4, f 4 5); (6, f 6 7)]%nat with
           | [] => None | l => Some (fst p, l) end)
        (imap (fun i it => (i, it)) (k_iters x)).
+(* debugging aid: per iteration, the final removals that leave something behind *)
+Definition c10_rwhere (x : ccase) : list (nat * list (N * Z)) :=
+  (fix go (c : ccfg) (s : tst) (prev : world) (its : list citer) (n : nat) :=
+     match its with
+     | [] => []
+     | it :: r =>
+         let later' := flat_map ci_calls r in
+         let '(vs, s', finals) := c10_calls c it prev s (ci_calls it) later' [] in
+         (if ci_exc it then [] else
+          match List.filter (fun i => negb (gone_everywhere it i)) finals with [] => [] | l => [(n, l)] end)
+         ++ go c s' (nth_world it 1) r (S n)
+     end) (k_cfg x) (TSt ∅ ∅ ∅) ∅ (k_iters x) 0%nat.
